@@ -10,9 +10,10 @@ int cmd_kern(const case_t *c);
 int cmd_equil(const case_t *c);
 int cmd_order(const case_t *c);
 int cmd_args(const case_t *c);
+int cmd_hist(const case_t *c);
 
 static const struct { const char *name; cmd_fn fn; } cmds[] = {
-    { "gssv", cmd_gssv }, { "gstrf", cmd_gstrf }, { "gssvx", cmd_gssvx }, { "kern", cmd_kern }, { "equil", cmd_equil }, { "order", cmd_order }, { "args", cmd_args },
+    { "gssv", cmd_gssv }, { "gstrf", cmd_gstrf }, { "gssvx", cmd_gssvx }, { "kern", cmd_kern }, { "equil", cmd_equil }, { "order", cmd_order }, { "args", cmd_args }, { "hist", cmd_hist },
     { NULL, NULL }
 };
 
